@@ -27,6 +27,7 @@ import (
 )
 
 const clockPath = "clocks"
+const clockRebuildMarker = "clocks-rebuild-in-progress"
 const indexPath = "indexes"
 
 var _ ClockedRepo = &GoGitRepo{}
@@ -80,6 +81,11 @@ func OpenGoGitRepo(path, namespace string, clockLoaders []ClockLoader) (*GoGitRe
 		localStorage: billyLocalStorage{Filesystem: osfs.New(filepath.Join(path, namespace))},
 	}
 
+	// A rebuild of the clocks that was interrupted leaves clocks that exist but are lower than
+	// what is stored. A marker file tells the next opening to run all the loaders again.
+	_, err = repo.localStorage.Stat(clockRebuildMarker)
+	interrupted := err == nil
+
 	loaderToRun := make([]ClockLoader, 0, len(clockLoaders))
 	for _, loader := range clockLoaders {
 		loader := loader
@@ -90,9 +96,17 @@ func OpenGoGitRepo(path, namespace string, clockLoaders []ClockLoader) (*GoGitRe
 			}
 		}
 
-		if !allExist {
+		if !allExist || interrupted {
 			loaderToRun = append(loaderToRun, loader)
 		}
+	}
+
+	if len(loaderToRun) > 0 {
+		marker, err := repo.localStorage.Create(clockRebuildMarker)
+		if err != nil {
+			return nil, err
+		}
+		_ = marker.Close()
 	}
 
 	var errG errgroup.Group
@@ -105,6 +119,13 @@ func OpenGoGitRepo(path, namespace string, clockLoaders []ClockLoader) (*GoGitRe
 	err = errG.Wait()
 	if err != nil {
 		return nil, err
+	}
+
+	if len(loaderToRun) > 0 {
+		err = repo.localStorage.Remove(clockRebuildMarker)
+		if err != nil {
+			return nil, err
+		}
 	}
 
 	return repo, nil
